@@ -662,3 +662,105 @@ Definition check_negated_grad (probes : list (list Q * list Q)) : bool :=
   forallb (fun fp => ql_eqb (snd fp) (map Qopp (fst fp))) probes.
 Definition check_lbfgsb (warnflag : Z) (task : string) (obs_success : Z) (obs_message : string) : bool :=
   let '(s, m) := lbfgsb_status warnflag task in Z.eqb s obs_success && String.eqb m obs_message.
+
+(* ================= third deepening round: comparison functions for the new theorem families ================= *)
+
+(* --- LM, one iteration as the theorems describe it (C16_lm_step_descent): from the OBSERVED current point x, the OBSERVED system
+   (M, g) handed to the linear solver and the OBSERVED next point x':
+     g is the model's gradient J(x)^T F(x) (to 1e-9 |J| |F|, unless the residual itself cancels);  with s the exact solution of M s = g:  <s, g> > 0;
+     the step was accepted (x' <> x) IFF the model's objective at x - s does not exceed the one at x;  if accepted, x' = x - s;
+     the model's objective at x' does not exceed the one at x.
+   Rounding margins: decisions within 1e-9 relative of equality, residual polynomials evaluated with >= 6 digits of cancellation, steps
+   below 1e-12 |x| (x - s == x in floating point) and (nearly) singular systems are not judged. *)
+Definition frob2 (J : list (list Qc)) : Qc := fold_right (fun row acc => (qnormsq row + acc)%Qc) 0%Qc J.
+Definition check_lm_descent_gen (F : list Qc -> list Qc) (Jf : list Qc -> list (list Qc)) (solve : list (list Qc) -> list Qc -> list Qc)
+           (n : nat) (cancels : list Qc -> bool) (sing : list (list Qc) -> bool)
+           (obs : list (list Q * list (list Q) * list Q * list Q)) : bool :=
+  forallb (fun o => let '(x, M, g, x') := o in
+     let xv := qvec x in let r := F xv in let J := Jf xv in
+     let gm := qmattvec n J r in
+     let f := q_half_sq r in
+     let gv := qvec g in
+     let Mm := qmat M in
+     let s := solve Mm gv in
+     let xt := qvsub xv s in
+     let ft := q_half_sq (F xt) in
+     let f' := q_half_sq (F (qvec x')) in
+     let moved := negb (ql_eqb x x') in
+     let sg := qdot s gv in
+     let tiny_step := qc_leb (qnormsq s) (qc (1 # 1000000000000000000000000) * qnormsq xv)%Qc in
+     let near := Qle_bool (Qabs (this (f - ft)%Qc)) ((1 # 1000000000) * Qabs (this f)) in
+     let hard := cancels xv || cancels xt || cancels (qvec x') in
+     Nat.eqb (length x) n && Nat.eqb (length g) n && Nat.eqb (length x') n &&
+     (cancels xv || qc_leb (qnormsq (qvsub gv gm)) (qc (1 # 1000000000000000000) * (frob2 J * qnormsq r))%Qc) &&
+     (sing Mm || hard ||
+        ((qc_eqb (qnormsq gv) 0%Qc || negb (qc_leb sg 0%Qc)) &&
+         (if near || tiny_step then true else Bool.eqb moved (qc_leb ft f)) &&
+         (if moved then qc_leb (qnormsq (qvsub (qvec x') xt)) (qc (1 # 1000000000000) * (qnormsq xv + qnormsq s))%Qc else true))) &&
+     (hard || qc_leb f' (f * qc (1000000002 # 1000000000))%Qc)) obs.
+
+Definition check_lm_descent1 (co : list (Q * Q * Q)) (obs : list (list Q * list (list Q) * list Q * list Q)) : bool :=
+  let c := qco co in
+  check_lm_descent_gen (quadF c) (quadJ c) q_solve1 1 (quad_cancels c)
+    (fun M => match M with [[a]] => qc_eqb a 0%Qc | _ => true end) obs.
+Definition check_lm_descent2 (sg a b c d : Q) (obs : list (list Q * list (list Q) * list Q * list Q)) : bool :=
+  let p := (qc sg, qc a, qc b, qc c, qc d) in
+  check_lm_descent_gen (q_lm2F p) (q_lm2J p) q_solve2 2 (lm2_cancels p)
+    (fun M => match M with
+              | [[m11; m12]; [m21; m22]] =>
+                  Qle_bool (Qabs (this (m11 * m22 - m12 * m21)%Qc)) ((1 # 1000000) * (Qabs (this (m11 * m22)%Qc) + Qabs (this (m12 * m21)%Qc)))
+              | _ => true end) obs.
+
+(* --- CGLS / PCGLS: which of the three exits (C16_cgls_exit_paths) a run took.  The class of the model's run must be the class
+   the harness computed independently from the observed point (unless a stopping comparison is within the rounding margin) --- *)
+Inductive exitc := ExR | ExX | ExM.
+Definition exitc_eqb (a b : exitc) : bool := match a, b with ExR, ExR | ExX, ExX | ExM, ExM => true | _, _ => false end.
+Definition exit_class (res_ok normx : bool) (k : nat) : exitc :=
+  if Nat.ltb 0 k && res_ok then ExR else if Nat.ltb 0 k && normx then ExX else ExM.
+Definition check_exit_class (res : list Qc * nat) (iter : nat -> q_cg_state) (resid : list Qc -> list Qc) (tol g0 : Qc) (maxit : nat)
+           (obs_k : nat) (obs_res_ok obs_normx : bool) : bool :=
+  let '(mx, mk) := res in
+  let t2 := (tol * tol)%Qc in
+  let res_ok := qc_leb (qnormsq (resid mx)) (g0 * t2)%Qc in
+  let normx := qc_leb 1%Qc (qnormsq mx * t2)%Qc in
+  let cm := exit_class res_ok normx mk in
+  (* the model run itself obeys the theorem: exit M only at k = maxit, and both clauses false at every earlier iterate *)
+  (match cm with ExM => Nat.eqb mk maxit | _ => true end) &&
+  forallb (fun j => let xj := cg_x Qc (iter j) in
+                    negb (qc_leb (qnormsq (resid xj)) (g0 * t2)%Qc) && negb (qc_leb 1%Qc (qnormsq xj * t2)%Qc)) (seq 1 (mk - 1)) &&
+  (cg_margin tol g0 (iter (Nat.min mk obs_k)) || cg_margin tol g0 (iter mk) || exitc_eqb cm (exit_class obs_res_ok obs_normx obs_k)).
+
+Definition check_cgls_exit (n : nat) (A : list (list Q)) (b x0 : list Q) (shift : Q) (maxit : nat) (tol : Q)
+           (obs_k : nat) (obs_res_ok obs_normx : bool) : bool :=
+  let Am := qmat A in
+  let fwd := qmatvec Am in let adj := qmattvec n Am in
+  let st0 := q_cgls_init fwd adj (qvec b) (qc shift) (qvec x0) in
+  check_exit_class (q_cgls_solve fwd adj (qvec b) (qc shift) (qvec x0) maxit (qc tol))
+                   (fun k => cgls_iter Qc 0%Qc Qcplus Qcmult Qcminus Qcdiv qc_leb qc_eps fwd adj (qc shift) k st0)
+                   (ne_residual n Am (qvec b) (qc shift)) (qc tol) (cg_gamma Qc st0) maxit obs_k obs_res_ok obs_normx.
+
+Definition check_pcgls_exit (n : nat) (A : list (list Q)) (b x0 : list Q) (P Pinv : list (list Q)) (shift : Q) (maxit : nat) (tol : Q)
+           (obs_k : nat) (obs_res_ok obs_normx : bool) : bool :=
+  let Am := qmat A in let Pi := qmat Pinv in
+  let fwd := qmatvec Am in let adj := qmattvec n Am in
+  let pinv := qmatvec Pi in let pinvT := qmattvec n Pi in
+  let st0 := q_pcgls_init fwd adj (qvec b) pinvT (qvec x0) in
+  is_inverse n (qmat P) Pi &&
+  check_exit_class (q_pcgls_solve fwd adj (qvec b) pinv pinvT (qc shift) (qvec x0) maxit (qc tol))
+                   (fun k => pcgls_iter Qc 0%Qc Qcplus Qcmult Qcminus Qcdiv qc_leb qc_eps fwd adj pinv pinvT k st0)
+                   (fun v => pinvT (qmattvec n Am (qvsub (qvec b) (qmatvec Am v)))) (qc tol) (cg_gamma Qc st0) maxit obs_k obs_res_ok obs_normx.
+
+(* --- PCGLS = CGLS on the preconditioned operator (C16_pcgls_is_cgls_preconditioned): the observed PCGLS iterates started at
+   x0 = P^-1 y0 are P^-1 times the model's CGLS iterates of the operator A P^-1 (adjoint P^-T A^T, shift 0) started at y0 --- *)
+Fixpoint check_mapped_iterates (j : nat) (step : q_cg_state -> q_cg_state) (mapx : list Qc -> list Qc) (st : q_cg_state) (obs : list (list Q)) : bool :=
+  match obs with
+  | [] => true
+  | o :: rest => qcl_close (iter_tol tol6 j) (qvec o) (mapx (cg_x Qc st)) &&
+                 match rest with [] => true | _ => check_mapped_iterates (S j) step mapx (step st) rest end
+  end.
+Definition check_pcgls_as_cgls (n : nat) (A : list (list Q)) (b y0 : list Q) (P Pinv : list (list Q)) (obs : list (list Q)) : bool :=
+  let Am := qmat A in let Pi := qmat Pinv in
+  let pinv := qmatvec Pi in let pinvT := qmattvec n Pi in
+  let fwd' := fun y => qmatvec Am (pinv y) in let adj' := fun z => pinvT (qmattvec n Am z) in
+  is_inverse n (qmat P) Pi &&
+  check_mapped_iterates 0 (q_cgls_step fwd' adj' 0%Qc) pinv (q_cgls_init fwd' adj' (qvec b) 0%Qc (qvec y0)) obs.
